@@ -149,6 +149,7 @@ type unaryRpcArgs struct {
 type streamHandler struct {
 	ch     chan *goatorepo.Rpc
 	done   chan struct{}
+	ctx    context.Context
 	cancel context.CancelFunc
 }
 
@@ -456,6 +457,9 @@ func (h *handler) processStreamingRpc(
 		} else {
 			select {
 			case handler.ch <- rpc:
+			case <-handler.ctx.Done():
+				// The handler has finished (or been cancelled) and will not read
+				// this: drop it rather than block the connection on it.
 			case <-clientCtx.Done():
 				return clientCtx.Err()
 			case <-h.ctx.Done():
@@ -496,6 +500,7 @@ func (h *handler) processStreamingRpc(
 	h.streams[streamId] = streamHandler{
 		ch:     make(chan *goatorepo.Rpc, 1),
 		done:   make(chan struct{}, 1),
+		ctx:    ctx,
 		cancel: cancel,
 	}
 
